@@ -157,7 +157,7 @@ def history_lines(path, h):
 def diagnose(module, cfg, path, h):
     """Re-run TLC on one rejected history with deadlock checking: the stuck state is where the
     specification stopped accepting the recorded events."""
-    res = C.run_tlc(module, cfg, workers=1, timeout=600, dfs=True, deadlock=True,
+    res = C.run_tlc(module, cfg.replace(".cfg", "_diag.cfg"), workers=1, timeout=600, dfs=True, deadlock=True,
                     env_extra={"VERIF_IN": path, "VERIF_ONLY": str(h)}, name="conc_diag")
     m = re.findall(r"^/\\ l = (\d+)$", res.out, re.M)
     state = res.out[res.out.rfind("State "):][:3000] if "State " in res.out else res.out[-2000:]
@@ -205,16 +205,13 @@ def validate_lin(chk, path, stats):
     chk.add_tlc("Trace_ConcLin", res, "hook-independent: linearization search + aggregate laws on the calls only")
     ok = {int(x) for x in re.findall(r'^<<"LIN_OK", (\d+)>>$', res.out, re.M)}
     m = re.search(r'^<<"LIN", (\d+), (\d+)>>$', res.out, re.M)
-    law_broken = "Invariant SmallLaw is violated" in res.out
-    if not m and not law_broken:
+    if not m:
         C.require_tlc_ok(res, "Trace_ConcLin")
         raise C.ToolError("Trace_ConcLin printed no LIN line")
     hist = C.read_ndjson(path)
     stats["lin_histories_accepted"] += len(ok)
     stats["lin_histories_searched"] += sum(1 for x in hist if x["search"])
     rejected = [x for x in hist if x["h"] not in ok]
-    if law_broken and not rejected:
-        raise C.ToolError("Trace_ConcLin: SmallLaw violated but every history accepted")
     for x in rejected[:5]:
         calls = x["calls"]
         sig = {"kind": "lin", "history_kind": x["kind"], "searched": x["search"]}
